@@ -549,39 +549,42 @@ def nth1 := nth 1
 
 /-! ## length/2 -/
 
+/-- `SkipMaxList`: the number of elements skipped, at most the given length -/
+def skipMax (len : Term) (es : List Term) : Nat :=
+  match len with
+  | .int n => min n.toNat es.length
+  | _ => es.length
+
+/-- the continuation of `Length` after `SkipMaxList`: `skipped` elements were skipped, `suffix` is the rest -/
+def lengthSuffix (k : Nat) (args : List Term) (len : Term) (skipped : Nat) (suffix : Term) : Result :=
+  match suffix with
+  | .var s =>
+    match len with
+    | .int n =>
+      -- lengthRundown
+      let c := n - Int.ofNat skipped
+      if c > allocLimit then .error (resourceErr "memory")
+      else .ok [args.map (substT (bind1 s (Term.list (freshVars (boundL args) c.toNat))))]
+    | .var nv =>
+      if nv = s then .error (resourceErr "finite_memory")
+      else
+        -- lengthAddendum: suffix = [], [_], [_,_], … ; length = skipped, skipped+1, …
+        .ok ((List.range k).map fun j =>
+          args.map (substT fun v =>
+            if v = s then Term.list (freshVars (boundL args) j)
+            else if v = nv then .int (Int.ofNat (skipped + j))
+            else .var v))
+    | _ => .ok []
+  | .atom a => if a = "[]" then .ok (unifyAns args len (.int (Int.ofNat skipped))) else .ok []
+  | .app _ _ => .ok []   -- `[a,b|T]` against a shorter length, or a non-list tail
+  | _ => .ok []
+
 def length (k : Nat) (list len : Term) : Result :=
-  let args := [list, len]
   match checkPositiveInteger len with
   | some e => .error e
   | none =>
-    let es := list.spine.1
-    let tl := list.spine.2
-    -- SkipMaxList: skip at most `len` elements
-    let skipped : Nat := match len with
-      | .int n => min n.toNat es.length
-      | _ => es.length
-    let suffix := Term.list (es.drop skipped) tl
-    match suffix with
-    | .var s =>
-      match len with
-      | .int n =>
-        -- lengthRundown
-        let c := n - Int.ofNat skipped
-        if c > allocLimit then .error (resourceErr "memory")
-        else .ok [args.map (substT (bind1 s (Term.list (freshVars (boundL args) c.toNat))))]
-      | .var nv =>
-        if nv = s then .error (resourceErr "finite_memory")
-        else
-          -- lengthAddendum: suffix = [], [_], [_,_], … ; length = skipped, skipped+1, …
-          .ok ((List.range k).map fun j =>
-            args.map (substT fun v =>
-              if v = s then Term.list (freshVars (boundL args) j)
-              else if v = nv then .int (Int.ofNat (skipped + j))
-              else .var v))
-      | _ => .ok []
-    | .atom a => if a = "[]" then .ok (unifyAns args len (.int (Int.ofNat skipped))) else .ok []
-    | .app _ _ => .ok []   -- `[a,b|T]` against a shorter length, or a non-list tail
-    | _ => .ok []
+    lengthSuffix k [list, len] len (skipMax len list.spine.1)
+      (Term.list (list.spine.1.drop (skipMax len list.spine.1)) list.spine.2)
 
 /-! ## pure SLD resolution over a clause list (member/2, select/3, the two clauses of appendLists) -/
 
